@@ -11,7 +11,7 @@ NCPU = int(os.environ.get("VERIF_JOBS", "16"))
 ASAN_ENV = {
     "ASAN_OPTIONS": "abort_on_error=1:detect_leaks=0:hard_rss_limit_mb=3072:allocator_may_return_null=0:"
                     "handle_abort=1:print_summary=1:detect_stack_use_after_return=0",
-    "UBSAN_OPTIONS": "print_stacktrace=1:halt_on_error=1",
+    "UBSAN_OPTIONS": "print_stacktrace=1:halt_on_error=1:abort_on_error=1",
     "LSAN_OPTIONS": "print_suppressions=0",
 }
 
